@@ -288,6 +288,12 @@ class Sym:
                 self._assign(st.target, self.ev(st.value, env, fr), env, fr, st.value)
             return None
         if isinstance(st, ast.AugAssign):
+            if isinstance(st.target, ast.Name) and isinstance(st.op, (ast.BitOr, ast.Add)):
+                cur0 = env.get(st.target.id)
+                if cur0 is not None and cur0[0] == 'acc' and cur0[1] == 'list':
+                    # union / concatenation into a loop accumulator: one `extend` emission
+                    self._emit(env, st.target.id, ('flat', self.ev(st.value, env, fr)))
+                    return None
             cur = self.ev(st.target, env, fr) if isinstance(st.target, ast.Name) else opaque(st.target)
             val = self.ev(st.value, env, fr)
             if isinstance(st.op, ast.Add):
@@ -492,7 +498,7 @@ class Sym:
                     return
                 env.setdeep(name, ('call', 'append', (cur, v)))
                 return
-            if cur is not None and m == 'extend' and len(node.args) == 1 and cur[0] == 'acc' and cur[1] == 'list':
+            if cur is not None and m in ('extend', 'update') and len(node.args) == 1 and cur[0] == 'acc' and cur[1] == 'list':
                 self._emit(env, name, ('flat', self.ev(node.args[0], env, fr)))
                 return
             if cur is not None and m == 'extend' and len(node.args) == 1 and cur == ('list', ()):
@@ -530,8 +536,10 @@ class Sym:
         mutated = set()
         assigned = set()
         for n in ast.walk(st):
-            if isinstance(n, ast.Call) and isinstance(n.func, ast.Attribute) and isinstance(n.func.value, ast.Name) and n.func.attr in ('append', 'add', 'extend'):
+            if isinstance(n, ast.Call) and isinstance(n.func, ast.Attribute) and isinstance(n.func.value, ast.Name) and n.func.attr in ('append', 'add', 'extend', 'update'):
                 mutated.add(n.func.value.id)
+            if isinstance(n, ast.AugAssign) and isinstance(n.target, ast.Name) and isinstance(n.op, (ast.BitOr, ast.Add)):
+                mutated.add(n.target.id)
             if isinstance(n, ast.Subscript) and isinstance(n.ctx, ast.Store) and isinstance(n.value, ast.Name):
                 mutated.add(n.value.id)
             if isinstance(n, ast.Subscript) and isinstance(n.ctx, ast.Store) and isinstance(n.value, ast.Attribute) and isinstance(n.value.value, ast.Name) \
@@ -605,6 +613,9 @@ class Sym:
             if env.has(name) and name not in target_names:
                 env.setdeep(name, opaque(f'<loop-mutated {name}>'))
         for name in outer_assigned:
+            if name in accs and env.get(name) is not None and env.get(name)[0] != 'opaque' and not any(
+                    isinstance(n, ast.Assign) and any(isinstance(t_, ast.Name) and t_.id == name for t_ in n.targets) for b in st.body for n in ast.walk(b)):
+                continue  # only updated as an accumulator (`acc |= ...`): summarised above
             env.setdeep(name, opaque(f'<loop-assigned {name}>'))
         for v in target_names:
             env.set(v, opaque(f'<loop-var {v}>'))
@@ -1345,7 +1356,7 @@ class Sym:
         if key in self._stack or fr.depth >= MAX_DEPTH:
             return ('rec', func.short, tuple(args))
         if func.qualname in self.stop_at:
-            return ('ref', func.short, recv_term if recv_term is not None else NONE_T, tuple(args))
+            return ('ref', func.short, recv_term if recv_term is not None else NONE_T, tuple(args) + tuple(('kw', k_, v_) for k_, v_ in sorted((kwargs or {}).items())))
         e = _Env()
         bound = func.cls is not None and func.parent is None and not func.is_static and recv is not None
         self._bind_params(func, e, args, kwargs, skip_self=bound, fr=fr, self_term=recv_term)
